@@ -1,46 +1,45 @@
 #!/bin/bash
-# confirm_seed.sh <ID> <a|b>: confirm a seeded mutant myself in a scratch worktree of /repo HEAD:
-#  demo passes on the clean tree; with the patch the existing suite passes and the demo fails.
-# Writes /verif/seeded/<ID>-<v>/{patch.diff,demo,meta.json,confirm.json}; removes the worktree afterwards.
+# confirm_seed.sh <ID>-<a|b|..>: confirm a seeded change myself in a scratch worktree of /repo HEAD:
+#  the demo passes on the clean tree; with the patch the existing suite passes and the demo fails.
+# Reads /verif/seeded/<id>/{patch.diff|patch.rebased.diff, demo_*.rs, meta.json}; writes confirm.json (+ patch.rebased.diff when the
+# patch needed fuzz / 3-way to apply to today's HEAD); removes the worktree afterwards.
 set -u
-ID=$1; V=$2
-SRC=/tmp/seed/out/$ID/$V
-DST=/verif/seeded/$ID-$V
-WT=/tmp/cs/$ID-$V
-[ -f $SRC/patch.diff ] || { echo "$ID-$V: no patch"; exit 2; }
-mkdir -p $DST /tmp/cs
-cp $SRC/patch.diff $SRC/meta.json $DST/ 2>/dev/null
-DEMO=$(ls $SRC | grep -E '^demo_.*\.rs$' | head -1)
-cp $SRC/$DEMO $DST/
+S=$1
+DST=/verif/seeded/$S
+WT=/tmp/cs/$S
+P=$DST/patch.rebased.diff; [ -s $P ] || P=$DST/patch.diff
+[ -f $P ] || { echo "$S: no patch"; exit 2; }
+DEMO=$(ls $DST | grep -E '^demo_.*\.rs$' | head -1)
+mkdir -p /tmp/cs
 export CARGO_NET_OFFLINE=true
 rm -rf $WT; git -C /repo worktree prune; git -C /repo worktree add -q --detach $WT HEAD || exit 3
 cd $WT
-mkdir -p tests; cp $SRC/$DEMO tests/
-FEAT=""; grep -q 'all-features' $SRC/meta.json && FEAT="--all-features"
+mkdir -p tests; cp $DST/$DEMO tests/
+FEAT=""; grep -q 'all-features' $DST/meta.json && FEAT="--all-features"
 T=${DEMO%.rs}
 applies=no; clean_demo=fail; suite=fail; mut_demo=pass
 timeout 1200 cargo test --offline $FEAT --test $T > clean_demo.log 2>&1 && clean_demo=pass
-if git apply --check $SRC/patch.diff 2>/dev/null; then git apply $SRC/patch.diff; applies=yes
-elif git apply -3 $SRC/patch.diff 2>/dev/null; then applies=3way
-elif patch -p1 --fuzz=3 -s < $SRC/patch.diff > patch.log 2>&1; then applies=fuzz
+if git apply --check $P 2>/dev/null; then git apply $P; applies=yes
+elif git apply -3 $P 2>/dev/null; then applies=3way
+elif patch -p1 --fuzz=3 -s < $P > patch.log 2>&1; then applies=fuzz
 fi
 if [ $applies != no ]; then
-  git diff -- src > $DST/patch.rebased.diff
+  [ $applies != yes ] && git diff -- src > $DST/patch.rebased.diff
   timeout 1800 cargo test --offline $FEAT --no-fail-fast --lib --bins > suite.log 2>&1; s1=$?
   timeout 1800 cargo test --offline $FEAT --doc > doc.log 2>&1; s2=$?
   [ $s1 = 0 ] && [ $s2 = 0 ] && suite=pass
   timeout 1200 cargo test --offline $FEAT --test $T > mut_demo.log 2>&1 || mut_demo=fail
 fi
 python3 - <<P
-import json,re
+import json
 def tail(p,n=12):
     try: return open(p).read().splitlines()[-n:]
     except Exception: return []
 res=[l for f in ('suite.log','doc.log') for l in tail('$WT/'+f,400) if l.startswith('test result')]
-json.dump({'id':'$ID-$V','base':'$(git -C /repo rev-parse --short HEAD)','applies':'$applies','demo_on_clean_tree':'$clean_demo','suite_with_mutant':'$suite','demo_with_mutant':'$mut_demo',
+json.dump({'id':'$S','base':'$(git -C /repo rev-parse --short HEAD)','applies':'$applies','demo_on_clean_tree':'$clean_demo','suite_with_mutant':'$suite','demo_with_mutant':'$mut_demo',
  'suite_results':res,'demo_fail_excerpt':[l for l in tail('$WT/mut_demo.log',40) if 'FAILED' in l or 'panicked' in l or 'assert' in l][:6],
  'confirmed': '$applies'!='no' and '$clean_demo'=='pass' and '$suite'=='pass' and '$mut_demo'=='fail',
- 'ran':'tools/confirm_seed.sh $ID $V (scratch worktree of /repo HEAD, removed afterwards)'}, open('$DST/confirm.json','w'), indent=1)
+ 'ran':'tools/confirm_seed.sh $S (scratch worktree of /repo HEAD, removed afterwards)'}, open('$DST/confirm.json','w'), indent=1)
 P
 cd /; git -C /repo worktree remove --force $WT
-echo "$ID-$V applies=$applies clean_demo=$clean_demo suite=$suite mut_demo=$mut_demo"
+echo "$S applies=$applies clean_demo=$clean_demo suite=$suite mut_demo=$mut_demo"
